@@ -1,4 +1,5 @@
 import GBModel.Arr
+import GBProofs.AxisCalculus
 
 /-!
 # C09 — spherical, mixed and linearly transformed results derive from the Cartesian ones
@@ -51,5 +52,17 @@ theorem ref_lincomb4 :
 theorem rejects_lincomb_wrong_order :
     lincombOk [.tdot 0 0, .tdot 0 1, .tdot 0 2, .tdot 0 3, .swap 0 3] 4 (fun _ => 0) = false := by
   decide +kernel
+
+/-- **soundness for all shapes**: a program accepted by `pipelineOk` computes, on every concrete
+shell block of the right dimensions and for every number of segments, components, points …, the array
+whose entry `(m_s·L'_s + f_s)_s` is the block normalised on `(segment, Cartesian component)` and
+contracted with its own matrix on every spherical slot (`nest` is that explicit nested sum) -/
+alias pipeline_sound_all_shapes := c09_general
+
+/-- the two-slot closed form (explicit double sum) -/
+alias two_slot_formula := c09_two_slots
+
+/-- `construct_array_lincomb`: every basis axis contracted with the transformation meant for it -/
+alias lincomb_sound := lincombOk_sound
 
 end GB.C09
